@@ -4,6 +4,7 @@
 #![allow(clippy::too_many_arguments)]
 extern crate rustc_abi;
 extern crate rustc_ast;
+extern crate rustc_data_structures;
 extern crate rustc_driver;
 extern crate rustc_hir;
 extern crate rustc_interface;
